@@ -291,6 +291,11 @@ def rule_state(ctx, rule):
         def where(self):
             return self.module.rel
     decided = 0
+    # the rule's expected count on the confirmed tree is zero: a built-in positive and a negative example keep it from passing vacuously
+    _pos = ast.parse("_C = {}\ndef f(taus, m):\n    k = (tuple(np.round(taus, 3)), tuple(sorted(m)))\n    m.items()\n    w = 1 - taus\n    _C[k] = (w, dict(m))\n")
+    _neg = ast.parse("_C = {}\ndef f(x):\n    k = (x.shape, x.tobytes())\n    _C[k] = x.sum()\n")
+    if len(lossy_memo_keys(_pos, {"_C"})) != 2 or lossy_memo_keys(_neg, {"_C"}):
+        raise AnalysisError("state.memo_key: the built-in examples are not decided as expected - the rule is broken, no verdict")
     for c in ctx.repo.consulted():
         rel = c["path"]
         if not rel.startswith("typhon/"):
